@@ -57,6 +57,32 @@ def body(c):
             if got[0] != want[0] or (want[0] == "ok" and (got[1] != want[1] or got[2] != want[1])):
                 c.violation({"kind": "effective_n_jobs", "backend": x["backend"], "n_jobs": x["n"], "affinity": x["aff"], "LOKY_MAX_CPU_COUNT": x["env"], "got": got},
                             "C15: n_jobs=%d on %s with cpu_count()=%d resolves to %s, specification: %s" % (x["n"], x["backend"], x["cpus"], got, want), {})
+    # 2b. the same rows while the mask and the variable CHANGE inside one process (nothing about the CPUs may be remembered)
+    orders = [[OSCPUS, 2, 3, 1, OSCPUS], [3, OSCPUS, 1, 2], [1, 3, 2, OSCPUS]]
+    envs = [[0, 0, 64, 1, 0], [2, 0, 0, 3], [0, 64, 0, 0]]
+    sj = []
+    for affs, evs in zip(orders, envs):
+        steps = []
+        for a, e in zip(affs, evs):
+            g = groups[(a, e)]
+            sub = g if not c.quick else [x for x in g if x["n"] in (-1, -2, 1, 2)]
+            steps.append({"aff": a, "env": e, "rows": [[x["backend"], x["n"]] for x in sub], "_g": sub})
+        sj.append(steps)
+    res = [run_worker(base, "ts_%d" % k, {"mode": "table_seq", "steps": [{kk: v for kk, v in st.items() if kk != "_g"} for st in steps]}) for k, steps in enumerate(sj)]
+    for steps, r in zip(sj, res):
+        if "error" in r: raise RuntimeError("table_seq worker: " + r["error"])
+        hist = []
+        for st, out in zip(steps, r["steps"]):
+            hist.append([st["aff"], st["env"]])
+            if out["cpu_count"] != st["_g"][0]["cpus"]:
+                c.violation({"kind": "cpu_count_after_change", "history": list(hist), "got": out["cpu_count"]},
+                            "C15: after the (affinity, LOKY_MAX_CPU_COUNT) history %s in one process cpu_count() = %d; specification: %d" % (hist, out["cpu_count"], st["_g"][0]["cpus"]), {})
+            for x, got in zip(st["_g"], out["rows"]):
+                c.evaluations += 1; c.nontrivial.add(("table_seq", json.dumps(hist), x["backend"], x["n"]))
+                want = x["res"]
+                if got[0] != want[0] or (want[0] == "ok" and (got[1] != want[1] or got[2] != want[1])):
+                    c.violation({"kind": "effective_n_jobs_after_change", "history": list(hist), "backend": x["backend"], "n_jobs": x["n"], "got": got},
+                                "C15: after the history %s n_jobs=%d on %s resolves to %s, specification: %s" % (hist, x["n"], x["backend"], got, want), {})
     # 3. real concurrency: all tasks that manage to start block on a gate; at quiescence the count is the high-water mark
     gj = []
     for backend in ("threading", "loky", "multiprocessing"):
